@@ -52,7 +52,7 @@ pub fn source_values(s: &Desc, tier: Tier, tbits: u32) -> Vec<Vec<u8>> {
     sets::dedup(v)
 }
 
-type PairFn<'a> = &'a (dyn Fn(&[u8]) -> (Expect<Z>, Obs<Z>) + Sync);
+pub type PairFn<'a> = &'a (dyn Fn(&[u8]) -> (Expect<Z>, Obs<Z>) + Sync);
 
 fn guarded(f: PairFn, b: &[u8]) -> (Expect<Z>, Obs<Z>) {
     match std::panic::catch_unwind(std::panic::AssertUnwindSafe(|| f(b))) {
@@ -62,7 +62,7 @@ fn guarded(f: PairFn, b: &[u8]) -> (Expect<Z>, Obs<Z>) {
 }
 
 /// generic driver: for every source value compute (expectation, observation) with `f`
-fn drive_dyn(run: &mut Run, s: &Desc, t: &Desc, op: &str, f: PairFn) {
+pub fn drive_dyn(run: &mut Run, s: &Desc, t: &Desc, op: &str, f: PairFn) {
     let config = format!("{}->{}", s.name, t.name);
     if let Some((st, _)) = run.replay_target(&config, op) {
         let (e, o) = guarded(f, &unhex(&st[0]));
@@ -82,7 +82,7 @@ fn drive_dyn(run: &mut Run, s: &Desc, t: &Desc, op: &str, f: PairFn) {
     run.merge(&config, "values", op, vals.len() as u64, l);
 }
 
-fn drive<S: Subj, T: Subj>(run: &mut Run, op: &str, f: impl Fn(S) -> (Expect<Z>, Obs<Z>) + Sync) {
+pub fn drive<S: Subj, T: Subj>(run: &mut Run, op: &str, f: impl Fn(S) -> (Expect<Z>, Obs<Z>) + Sync) {
     drive_dyn(run, &desc::<S>(), &desc::<T>(), op, &|b: &[u8]| f(S::from_le(b)));
 }
 
